@@ -361,6 +361,37 @@ fn execute(sc: &Value) -> RunReport {
                 }
             }
         }
+        // ---- epilogue (engine runs): an IPv4-mapped IPv6 address. Which family's levels such an address is
+        //      judged at is the implementation's choice; what the statement fixes is that removal gives the slots
+        //      back and a failed admission keeps none: admit, remove, admit again - nothing else changes in
+        //      between, so the second verdict must equal the first.
+        if let Some(e) = engine.as_ref() {
+            let mut er = Rng::new(seed ^ 0x6d61_7070);
+            for round in 0..3u64 {
+                let mut id = er.arr32();
+                id[0] = local[0] ^ (0x80 >> (round % 3)); // three different high buckets, away from the crowded ones
+                let v4 = std::net::Ipv4Addr::new(203, 0, 113, 1 + er.below(200) as u8);
+                let text = format!("[{}]:{}", v4.to_ipv6_mapped(), 4000 + er.below(1000));
+                let first = e.write().await.add_node(node(id, text.clone())).await.is_ok();
+                if !first { ctx.probe("mapped_address_refused_at_first"); continue; }
+                let how = *er.pick(&["evict", "fail", "fail_twice"]);
+                match how {
+                    "evict" => { let _ = e.read().await.evict_node(&NodeId::from_bytes(id), EvictionReason::Stale).await; }
+                    "fail" => { let _ = e.write().await.handle_node_failure(NodeId::from_bytes(id)).await; }
+                    _ => { let _ = e.write().await.handle_node_failure(NodeId::from_bytes(id)).await; let _ = e.write().await.handle_node_failure(NodeId::from_bytes(id)).await; }
+                }
+                let listed = e.read().await.verif_routing_entries().await.iter().any(|n| n.id.as_bytes() == &id);
+                if listed { ctx.probe("mapped_peer_still_listed_after_removal"); continue; }
+                let second = e.write().await.add_node(node(id, text.clone())).await.is_ok();
+                ev!("mapped epilogue {round}: {text} admitted, removed by {how}, admitted again = {second}");
+                ctx.probe("mapped_address_readmitted_after_removal");
+                if !second {
+                    ctx.violate("C13.return.slots_not_returned_after_removal", format!("engine:mapped:{how}"), format!("{text} was admitted, removed from the routing table ({how}) and is refused when it comes back although nothing else changed"));
+                }
+                // leave the table as it was
+                let _ = e.read().await.evict_node(&NodeId::from_bytes(id), EvictionReason::Stale).await;
+            }
+        }
         if refusals > 0 && readmit_after_removal > 0 { ctx.nontrivial = true; }
         if refusals > 0 { ctx.probe("refusal"); }
     });
